@@ -646,8 +646,10 @@ func (r *NgReader) ReadPacketDataWithOptions() (data []byte, ci gopacket.Capture
 		ci.AncillaryData = make([]interface{}, 1)
 		ci.AncillaryData[0] = r.ancil[0]
 	}
-	data = make([]byte, r.ci.CaptureLength)
-	if _, err = r.readBytes(data); err != nil {
+	if err = r.checkCaptureLength(); err != nil {
+		return
+	}
+	if data, err = r.readData(nil, r.ci.CaptureLength); err != nil {
 		return
 	}
 	r.currentBlock.length -= uint32(r.ci.CaptureLength)
@@ -665,6 +667,45 @@ func (r *NgReader) ReadPacketDataWithOptions() (data []byte, ci gopacket.Capture
 	}
 	err = r.discard(int(r.currentBlock.length))
 	return
+}
+
+// checkCaptureLength rejects packet headers whose capture length cannot be
+// right: larger than the packet itself, than what is left of the block, or
+// than the snap length the interface announced.
+func (r *NgReader) checkCaptureLength() error {
+	if r.ci.CaptureLength > r.ci.Length && r.currentBlock.typ != ngBlockTypeSimplePacket {
+		return fmt.Errorf("capture length exceeds original packet length: %d > %d", r.ci.CaptureLength, r.ci.Length)
+	}
+	if uint32(r.ci.CaptureLength) > r.currentBlock.length {
+		return fmt.Errorf("capture length %d exceeds the %d bytes left in the block", r.ci.CaptureLength, r.currentBlock.length)
+	}
+	if snaplen := r.ifaces[r.ci.InterfaceIndex].SnapLength; snaplen != 0 && uint32(r.ci.CaptureLength) > snaplen {
+		return fmt.Errorf("capture length exceeds snap length: %d > %d", r.ci.CaptureLength, snaplen)
+	}
+	return nil
+}
+
+// readData reads n bytes into buf (reusing its capacity). Memory is committed
+// as the bytes actually arrive, so a corrupt length field in a short stream
+// cannot make us allocate gigabytes up front.
+func (r *NgReader) readData(buf []byte, n int) ([]byte, error) {
+	const chunk = 1 << 20
+	for len(buf) < n {
+		m := n - len(buf)
+		if m > chunk {
+			m = chunk
+		}
+		old := len(buf)
+		if cap(buf)-old >= m {
+			buf = buf[:old+m]
+		} else {
+			buf = append(buf, make([]byte, m)...)
+		}
+		if _, err := r.readBytes(buf[old:]); err != nil {
+			return buf[:old], err
+		}
+	}
+	return buf[:n], nil
 }
 
 // ZeroCopyReadPacketData returns the next packet available from this data source.
@@ -692,17 +733,13 @@ func (r *NgReader) ZeroCopyReadPacketDataWithOptions() (data []byte, ci gopacket
 	if r.options.WantMixedLinkType {
 		ci.AncillaryData = r.ancil[:]
 	}
-	if cap(r.packetBuf) < ci.CaptureLength {
-		snaplen := int(r.ifaces[ci.InterfaceIndex].SnapLength)
-		if snaplen < ci.CaptureLength {
-			snaplen = ci.CaptureLength
-		}
-		r.packetBuf = make([]byte, snaplen)
-	}
-	data = r.packetBuf[:ci.CaptureLength]
-	if _, err = r.readBytes(data); err != nil {
+	if err = r.checkCaptureLength(); err != nil {
 		return
 	}
+	if r.packetBuf, err = r.readData(r.packetBuf[:0], ci.CaptureLength); err != nil {
+		return
+	}
+	data = r.packetBuf[:ci.CaptureLength]
 	r.currentBlock.length -= uint32(r.ci.CaptureLength)
 	padding := (4 - r.ci.CaptureLength&3) & 3
 	if padding > 0 {
